@@ -81,6 +81,13 @@ def run(tier, seed):
         agree = 0
         vlines = [(ln, r[k]) for k, ln in enumerate(lines) if ln.startswith('V ')]
         nmax = 150 if quick else 1500
+        try:
+            unknown_main = 'UNRECOGNISED' in open(os.path.join(C.COQ, 'Gen', 'Exec.v')).read(600)
+        except OSError:
+            unknown_main = True
+        if unknown_main:
+            nmax *= 4       # main.rs is tied by this stage only; its shape is not the known one: sample more
+            R.notes.append('rust/src/main.rs has an unrecognised shape: the exit-status stage samples 4x as many inputs')
         accs = [x for x in vlines if x[1].startswith('ACCEPT')]
         rejs = [x for x in vlines if not x[1].startswith('ACCEPT')]
         sample = accs[:nmax // 2] + rejs[:nmax - min(len(accs), nmax // 2)]
